@@ -20,9 +20,10 @@ Terms (nested tuples):
   ('this',) ('fld', base, name) ('idx', vec, i) ('deref', it) ('var', name, uid) ('p', name)
   ('q', name, recv, args, epoch) ('res', n) ('adv', k, it, epoch) ('add', t, k) ('bin', op, a, b)
   ('cmp', op, a, b) ('not', t) ('int', v) ('bool', v) ('enum', type, name) ('ctor', type, args)
-  ('now', n) ('rng', n) ('pred', name, arg) ('era', n, loc) ('lv', name, loopid, tag) ('elem', range, loopid)
+  ('now', n) ('rng', n) ('pred', name, arg) ('ld', era, loc) ('lv', name, loopid, tag) ('elem', range, loopid)
   ('get', i, base) ('cast', type, t) ('unk', n) ('ma', loc, n) ('hasval', t) ('optval', t) ('global', name)
-A location term doubles as "the value that location had at entry" (era 0).
+('ld', era, loc) is the value a location held when it was first read in that era (era 0 = method entry;
+each loop iteration / loop exit starts a new era).
 """
 import re
 import sys
@@ -150,7 +151,7 @@ def root_of(t):
             t = t[2]
         elif k == 'adv':
             t = t[2]
-        elif k == 'era':
+        elif k in ('era', 'ld'):
             t = t[2]
         elif k == 'ma':
             t = t[1]
@@ -162,6 +163,8 @@ def root_of(t):
             t = t[2]
         elif k == 'res':
             return ('res', t[1])
+        elif k == 'lv' and len(t) == 5:
+            return ('param', t[1])
         elif k in ('var', 'lv'):
             return ('heap', None) if through_ptr else ('local', t[1])
         elif k == 'p':
@@ -201,7 +204,8 @@ class Evaluator:
             return loc
         k = loc[0]
         if k in ('int', 'bool', 'enum', 'ctor', 'now', 'rng', 'pred', 'res', 'adv', 'add', 'bin', 'cmp', 'not',
-                 'unk', 'global', 'cast', 'hasval', 'optval', 'float', 'str', 'pair', 'undef', 'some', 'lv'):
+                 'unk', 'global', 'cast', 'hasval', 'optval', 'float', 'str', 'pair', 'undef', 'some', 'lv', 'ld', 'ma',
+                 'fn', 'void', 'default', 'un', 'mcall', 'fncall', 'randdev', 'rng-state', 'iota'):
             if k == 'lv' and loc in st.store:
                 return st.store[loc]
             return loc
@@ -217,7 +221,7 @@ class Evaluator:
         elif k == 'p':
             v = loc
         else:
-            v = loc if st.era == 0 else ('era', st.era, loc)
+            v = ('ld', st.era, loc)
         if not quiet and k in ('fld', 'idx', 'deref', 'q', 'elem', 'get'):
             r = root_of(loc)
             if r[0] in ('field', 'res', 'this', 'heap'):
@@ -463,8 +467,13 @@ class Evaluator:
 
     def e_InitListExpr(self, n, st):
         elems = [c for c in n.get('inner', []) if c.get('kind')]
+        scalar = qt(n) in ('unsigned long', 'long', 'int', 'unsigned int', 'bool', 'float', 'double', 'unsigned long long',
+                           'long long', 'char', 'short', 'unsigned short', 'unsigned char')
         for st2, args in self.eval_args(elems, st):
-            yield st2, ('ctor', qt(n), tuple(args))
+            if scalar and len(args) <= 1:
+                yield st2, (args[0] if args else ('int', 0))
+            else:
+                yield st2, ('ctor', qt(n), tuple(args))
 
     def e_CXXTemporaryObjectExpr(self, n, st):
         yield from self.e_CXXConstructExpr(n, st)
@@ -977,6 +986,7 @@ class Evaluator:
         for st2, t2 in self.rv(init[0], st):
             st2.env[v['id']] = loc
             st2.store[loc] = t2
+            st2.ev('lwr', loc, t2, site_of(v, st2), 'decl')
             yield st2
 
     def declare_decomp(self, v, st):
@@ -1147,7 +1157,9 @@ class Evaluator:
         for vid in ids:
             b = st.env.get(vid)
             if b is not None and isinstance(b, tuple) and b[0] in ('var', 'p'):
-                st.store[b] = ('lv', b[1], lid, tag)
+                cur = st.store.get(b)
+                from_param = b[0] == 'p' or (cur is not None and root_of(cur)[0] == 'param')
+                st.store[b] = ('lv', b[1], lid, tag, 'param') if from_param else ('lv', b[1], lid, tag)
 
     def do_loop(self, n, st, kind, init, cond, inc, body, range_info=None):
         """summarise a loop: one arbitrary iteration per body path from a havocked state; continue after it
@@ -1165,7 +1177,7 @@ class Evaluator:
             it_st = st.clone()
             it_st.trace = []
             self.havoc(it_st, ids, lid, 'iter')
-            it_st.ev('iter', lid)
+            it_st.ev('iter', lid, it_st.era)
             if range_info is not None:
                 self.bind_range_var(range_info, it_st, lid)
             outs = []
@@ -1388,8 +1400,8 @@ def show(t, depth=0):
         return 'rng#%s' % t[1]
     if k == 'pred':
         return '%s(%s)' % (t[1], s(t[2]))
-    if k == 'era':
-        return '%s~%d' % (s(t[2]), t[1])
+    if k in ('era', 'ld'):
+        return s(t[2]) if t[1] == 0 else '%s~%d' % (s(t[2]), t[1])
     if k == 'lv':
         return '%s~L%s%s' % (t[1], t[2], t[3][0])
     if k == 'elem':
